@@ -87,7 +87,11 @@ def build(R, repo, builddir):
     rc, out = R.sh(['gcc', '-O1', '-w', os.path.join(HERE, 'qq_standin.c'), '-o', qq], timeout=120)
     if rc != 0:
         raise RuntimeError(out[-3000:])
-    return dict(exe=exe, qq=qq, builddir=builddir)
+    cp = os.path.join(builddir, 'cp_standin')
+    rc, out = R.sh(['gcc', '-O1', '-w', os.path.join(HERE, 'cp_standin.c'), '-o', cp], timeout=120)
+    if rc != 0:
+        raise RuntimeError(out[-3000:])
+    return dict(exe=exe, qq=qq, cp=cp, builddir=builddir)
 
 
 def parse_cfg(s):
@@ -175,7 +179,8 @@ def run_case(h, R, line, idx):
                    QQ_ENV=os.path.join(d, 'qq.env'), QQ_PLAN=os.path.join(d, 'qqplan'), QQ_COUNT=os.path.join(d, 'qqcount'))
         a, b = socket.socketpair()
         errf = open(os.path.join(d, 'stderr'), 'wb')
-        p = subprocess.Popen([h['exe']], stdin=b.fileno(), stdout=b.fileno(), stderr=errf, cwd=d, env=env, close_fds=True)
+        argv = [h['exe']] + (['mail.example.org', h['cp'], '/bin/true'] if cfg['auth'] == '1' else [])      # auth_setup(): domain, checkpassword, subprogram
+        p = subprocess.Popen(argv, stdin=b.fileno(), stdout=b.fileno(), stderr=errf, cwd=d, env=env, close_fds=True)
         b.close()
         a.setblocking(False)
         out = b''
